@@ -903,3 +903,26 @@ for _kind, _white in (("diagline", False), ("vertline", False)):
            f"_{_kind}_dist_sequential_missingvalues": ["self.sparse_rqa!=0 and self.missing_values!=0",
                                                        "arg0==self.N and shape(arg1,0)==self.N",
                                                        "all(arg1[q]==0 for q in range(self.N))"]})
+
+# C20/C18: the Python entry points of the raw-pointer current-flow kernels establish the kernels' preconditions
+# (node index inside [0,N) - the C code indexes x[i*N+j] without any check; N x N contiguous float32 copies via to_cy)
+_uses("ResNetwork.vertex_current_flow_betweenness[uses]", "core/resistive_network.py", "ResNetwork.vertex_current_flow_betweenness",
+      ("C20", "C18"), {"self.N": "int", "i": "int"}, ["self.N>=0"],
+      {"_vertex_current_flow_betweenness": ["arg0==self.N", "0<=arg5 and arg5<arg0"]}, total="<=1")
+_uses("ResNetwork.edge_current_flow_betweenness[uses]", "core/resistive_network.py", "ResNetwork.edge_current_flow_betweenness",
+      ("C20", "C18"), {"self.N": "int"}, ["self.N>=0"],
+      {"_edge_current_flow_betweenness": ["arg0==self.N"]})
+
+_uses("Surrogates.test_pearson_correlation[uses]", "timeseries/surrogates.py", "Surrogates.test_pearson_correlation", ("C20", "C10"),
+      {"original_data": "arr:float64:2", "surrogates": "arr:float64:2"}, [],
+      {"_test_pearson_correlation": ["shape(arg0,0)==arg2 and shape(arg0,1)==arg3", "shape(arg1,0)==arg2 and shape(arg1,1)==arg3"]},
+      total="<=1")
+_uses("Surrogates.test_mutual_information[uses]", "timeseries/surrogates.py", "Surrogates.test_mutual_information", ("C20", "C10"),
+      {"original_data": "arr:float64:2", "surrogates": "arr:float64:2", "n_bins": "int"}, [],
+      {"_test_mutual_information": ["shape(arg0,0)==arg2 and shape(arg0,1)==arg3", "shape(arg1,0)==arg2 and shape(arg1,1)==arg3",
+                                    "arg4>=1"]}, total="<=1")
+_uses("RainfallClimateNetwork.spearman_corr[uses]", "climate/rainfall.py", "RainfallClimateNetwork.spearman_corr", ("C20", "C10"),
+      {"final_mask": "arr:bool:2", "anomaly": "arr:float64:2", "time_series_ranked": "arr:float64:2"},
+      ["shape(time_series_ranked,0)==shape(anomaly,0) and shape(time_series_ranked,1)==shape(anomaly,1)"],
+      {"spearman_corr": ["shape(arg2,0)==arg0 and shape(arg2,1)==arg1", "shape(arg3,0)==arg0 and shape(arg3,1)==arg1"]},
+      total="<=1")
